@@ -1,4 +1,4 @@
-// C06 (part 2/5) — order-related non-modifying operations of etl/algorithm.hpp against std:: on a copy.
+// C06 (part 2/6) — order-related non-modifying operations of etl/algorithm.hpp against std:: on a copy.
 // Engine E2 (exhaustive small-scope enumeration) + seeded random longer inputs.  See C06_common.cpp.
 //
 // Covered here: min max minmax clamp (+-comp; identity of the returned reference), min_element max_element
